@@ -191,3 +191,268 @@ class SendProto(Suite):
             o["reqs"] = op["reqs"][:i] + op["reqs"][i + 1:]
             out.append(o)
         return out
+
+
+class RecvProto(Suite):
+    name = "recvproto"
+    needs_root = True
+    rule = ("real Receive into fresh/dirty on-disk destinations against an independent reference sender (synthetic stats): legal STAT sequences from "
+            "random typed trees, DATA chunkings 1 B .. 1 MiB, empty files, payload length != stat size, ids served fifo/round-robin/random/reversed, DATA "
+            "answered while STATs still flow, EOF before FIN (negative); non-trivial = >= 2 regular files in the view, distinct")
+
+    def gen(self, rng, tier):
+        n = {"quick": 300, "thorough": 8000, "search": 150}[tier]
+        ops = []
+        for _ in range(n):
+            tree = gen.disk_tree(rng, rng.choice([6, 15, 40]), 4, types=("dir", "file", "symlink", "fifo", "chr", "hardlink"),
+                                 file_sizes=(0, 1, 5, 100, 4096, 32767, 32768, 32769, 70000, 1200000 if rng.random() < 0.1 else 100))
+            r = rng.random()
+            dst = [] if r < 0.4 else gen.mutate_disk_tree(rng, tree) if r < 0.85 else gen.disk_tree(rng, 10, 3, types=("dir", "file", "symlink"))
+            big = any(e.get("size", 0) > 100000 for e in tree)
+            chunk = [rng.choice([1, 2, 7, 100, 1000] if not big and sum(e.get("size", 0) for e in tree) < 20000 else [4096, 32768, 100000, 1048576])
+                     for _ in range(rng.randint(1, 3))]
+            ref = {"chunk": chunk, "interleave": rng.choice(["fifo", "rr", "random", "reverse"]), "eager": rng.random() < 0.5,
+                   "seed": rng.randrange(1 << 30)}
+            if rng.random() < 0.08:
+                ref["eof_before_fin"] = True
+            op = {"op": "recvproto", "src": {"kind": "mem", "tree": tree}, "dst": dst, "ref": ref,
+                  "opt": {"cap": rng.choice([0, 1, 4, 32, 64]), "seed": rng.randrange(1 << 30)}}
+            if rng.random() < 0.15:
+                regs = [i for i, e in enumerate(tree) if e["t"] == "file"]
+                if regs:
+                    op["payload"] = [[rng.choice(regs), rng.choice([0, 3, 50000])]]
+            if rng.random() < 0.1:
+                op["opt"]["differ"] = "none"
+            ops.append(op)
+        return ops
+
+    def prepare_model(self, ops, impl=None):
+        out = []
+        for k, o in enumerate(ops):
+            i = impl[k] if impl else {}
+            if not isinstance(i, dict) or "view" not in i:
+                out.append({"op": "recvproto", "view": [], "before": [], "after": [], "log": [], "opt": o["opt"]})
+                continue
+            view = [dict(v) for v in i["view"]]
+            asked = set(e["id"] for e in i.get("log", []) if e["e"] == "R" and e["k"] == "send" and e.get("t") == "REQ")
+            for idx, v in enumerate(view):
+                if "sha" in v and idx in asked and str(idx) in i.get("sentsha", {}):
+                    v["sha"] = i["sentsha"][str(idx)]
+            m = {"op": "recvproto", "view": view, "before": i["before"], "after": i["after"], "log": i["log"], "opt": o["opt"]}
+            if "atfin" in i:
+                m["atfin"] = i["atfin"]
+            out.append(m)
+        return out
+
+    def judge(self, op, impl, model):
+        if "view" not in impl:
+            return Verdict(True, None, "skipped: %s" % str(impl)[:200])
+        notes = []
+        ok = True
+        if impl.get("blocked"):
+            ok = False
+            notes.append("Receive did not return (blocked)")
+        neg = op["ref"].get("eof_before_fin")
+        if not model.get("accept"):
+            ok = False
+            notes.append("receiver acceptor rejects the event log at event %s (need=%s requested=%s)" % (model.get("at"), model.get("need"), model.get("reqd")))
+        if neg:
+            if impl["recv"] != "err":
+                ok = False
+                notes.append("end of stream before FIN was not an error")
+        else:
+            if impl["recv"] != "ok":
+                ok = False
+                notes.append("Receive failed against a conforming sender: %s" % impl.get("recverr"))
+            else:
+                if sorted(model.get("reqd", [])) != sorted(model.get("need", [])):
+                    ok = False
+                    notes.append("requested ids %s != needed ids %s" % (sorted(model.get("reqd", [])), sorted(model.get("need", []))))
+                if model.get("c01") is False:
+                    ok = False
+                    notes.append("stored content/tree: " + str(model.get("c01_why")))
+                if model.get("atfin") is False:
+                    ok = False
+                    notes.append("at the moment FIN was sent the destination was not complete: " + str(model.get("atfin_why")))
+                if not model.get("fin"):
+                    ok = False
+                    notes.append("success without FIN")
+        if any(impl.get("overlaps", [])):
+            ok = False
+            notes.append("concurrent stream calls %s" % impl["overlaps"])
+        return Verdict(ok, ok, "; ".join(notes))
+
+    def nontrivial(self, op, impl, model):
+        return sum(1 for e in op["src"]["tree"] if e["t"] == "file") >= 2
+
+    def features(self, op, impl, model):
+        return ["interleave=" + op["ref"]["interleave"], "eager=%s" % op["ref"]["eager"], "dst=" + ("fresh" if not op["dst"] else "dirty"),
+                "recv=%s" % impl.get("recv"), "neg=%s" % bool(op["ref"].get("eof_before_fin")), "payload_override=%s" % ("payload" in op),
+                "needs=%s" % min(len(model.get("need", [])), 10)]
+
+    def shrink(self, op):
+        out = []
+        for side in ("src", "dst"):
+            tree = op["src"]["tree"] if side == "src" else op["dst"]
+            for i in range(len(tree)):
+                p = tree[i]["p"]
+                t2 = [e for e in tree if e["p"] != p and not e["p"].startswith(p + "2f") and not (e["t"] == "hardlink" and e.get("ln") == p)]
+                o = dict(op)
+                o.pop("payload", None)
+                if side == "src":
+                    o["src"] = {"kind": "mem", "tree": t2}
+                else:
+                    o["dst"] = t2
+                out.append(o)
+        return out
+
+
+HOSTILE_PATHS = [b"..", b".", b"", b"a/../..", b"../x", b"/abs", b"/", b"a//b", b"a/", b"./a", b"a/./b", b"a\\b", b"a/../b", b"..a", b"a/..",
+                 b"../../outside/f", b"x/../../sib"]
+
+
+class Hostile(Suite):
+    name = "hostile"
+    needs_root = True
+    rule = ("packet scripts of a hostile sender run against real Receive in a chroot'ed child process with sentinel trees beside and above dest: valid "
+            "STAT walks mutated by ill-formed paths (.., ., '', a/../.., absolute, //, trailing /, backslash), duplicates, swaps, missing parents, "
+            "children of files/symlinks, hard links to unknown/escaping names, symlink entries with xattrs pointing outside, DATA for ids never requested, "
+            "ERR; dirty destinations containing symlinks that point outside; non-trivial = script with >= 2 packets, distinct")
+
+    def gen(self, rng, tier):
+        n = {"quick": 250, "thorough": 6000, "search": 120}[tier]
+        ops = []
+        for _ in range(n):
+            ents = gen.rand_tree(rng, rng.choice([3, 8, 20]), 3)
+            stats = []
+            for p, d in ents:
+                st = gen.rand_stat(rng, p, d)
+                st["size"] = min(st["size"], 100)
+                if not d and st["mode"] & (1 << 27) and rng.random() < 0.5:
+                    # symlink pointing outside dest, sometimes with xattrs
+                    st["ln"] = hx(rng.choice([b"/outside/f", b"../../../outside/f", b"/x/sent", b"../sib/h", b"/outside/d"]))
+                    if rng.random() < 0.6:
+                        st["x"] = [[hx(b"trusted.evil"), hx(b"1")], [hx(b"security.evil"), hx(b"2")]]
+                stats.append(st)
+            script = [{"t": "STAT", "stat": s} for s in stats]
+            mut = rng.random()
+            if script and mut < 0.75:
+                for _ in range(rng.randint(1, 2)):
+                    sk = [i for i, x in enumerate(script) if x["t"] == "STAT" and x.get("stat")]
+                    if not sk:
+                        break
+                    k = rng.choice(sk)
+                    m = rng.randrange(9)
+                    if m == 0:
+                        st = dict(script[k]["stat"])
+                        st["p"] = hx(rng.choice(HOSTILE_PATHS))
+                        script[k] = {"t": "STAT", "stat": st}
+                    elif m == 1 and len(script) > 1:
+                        j = rng.randrange(len(script))
+                        script[k], script[j] = script[j], script[k]
+                    elif m == 2:
+                        script.insert(k, dict(script[k]))
+                    elif m == 3:
+                        del script[k]
+                    elif m == 4:
+                        st = dict(script[k]["stat"])
+                        st["p"] = hx(bytes.fromhex(st["p"]) + rng.choice([b"/..", b"/../..", b"/.", b"/", b"/../../../outside/new"]))
+                        script[k] = {"t": "STAT", "stat": st}
+                    elif m == 5:
+                        # hard link to an unknown / escaping name
+                        st = gen.rand_stat(rng, bytes.fromhex(script[k]["stat"]["p"]) + b"~", False)
+                        st["mode"] = 0o644
+                        st["ln"] = hx(rng.choice([b"nonexistent", b"../../outside/f", b"/outside/f", b"..", b"zzz"]))
+                        script.insert(k + 1, {"t": "STAT", "stat": st})
+                    elif m == 6:
+                        # DATA for an id that can never be requested (a directory's index / beyond the sequence)
+                        dirs = [i for i, x in enumerate(script) if x["t"] == "STAT" and x["stat"]["mode"] & (1 << 31)]
+                        ident = rng.choice(dirs) if dirs and rng.random() < 0.5 else len(script) + 5
+                        script.append({"t": "DATA", "id": ident, "n": rng.choice([0, 10])})
+                    elif m == 7:
+                        script.insert(k, {"t": "ERR"})
+                    elif m == 8:
+                        # child of a file / symlink
+                        st = gen.rand_stat(rng, bytes.fromhex(script[k]["stat"]["p"]) + b"/child", False)
+                        script.insert(k + 1, {"t": "STAT", "stat": st})
+                    if not script:
+                        break
+            script.append({"t": "STAT"})
+            r = rng.random()
+            dst = []
+            if r < 0.6:
+                # dirty destination with symlinks pointing outside, named like entries of the script
+                names = [bytes.fromhex(s["stat"]["p"]) for s in script if s["t"] == "STAT" and s.get("stat")]
+                tops = sorted(set(nm.split(b"/")[0] for nm in names if nm and not nm.startswith(b"/") and nm.split(b"/")[0] not in (b".", b"..", b"")))
+                for t in tops[:4]:
+                    kind = rng.choice(["symlink-out", "symlink-out", "dir", "file", "none"])
+                    if kind == "symlink-out":
+                        dst.append({"p": hx(t), "t": "symlink", "ln": hx(rng.choice([b"/outside", b"../../../outside", b"/outside/f", b"../sib"])),
+                                    "uid": 0, "gid": 0, "mt": gen.MTIMES[0], "mode": 0o777})
+                    elif kind == "dir":
+                        dst.append({"p": hx(t), "t": "dir", "uid": 0, "gid": 0, "mt": gen.MTIMES[0], "mode": 0o755})
+                    elif kind == "file":
+                        dst.append({"p": hx(t), "t": "file", "size": 3, "uid": 0, "gid": 0, "mt": gen.MTIMES[0], "mode": 0o644})
+            ops.append({"op": "hostile", "script": script, "dst": dst, "answer": rng.random() < 0.7,
+                        "opt": {"cap": rng.choice([0, 4, 32]), "seed": rng.randrange(1 << 30)}})
+        return ops
+
+    def judge(self, op, impl, model):
+        if "recv" not in impl:
+            return Verdict(True, None, "skipped: %s" % str(impl)[:200])
+        notes = []
+        ok = True
+        off = model.get("offender")
+        if impl.get("outside_changed"):
+            ok = False
+            notes.append("C03 containment: outside of dest changed: %s" % impl["outside_changed"][:5])
+        if impl["recv"] == "panic":
+            ok = False
+            notes.append("receiver process crashed: %s" % str(impl.get("crash"))[-200:])
+        if off is not None:
+            if impl["recv"] == "ok":
+                ok = False
+                notes.append("stream with an offending packet at %d (%s) was accepted" % (off, model.get("why")))
+            # nothing at or after the first offender is applied
+            allowed = set(e["p"] for e in impl.get("before", []))
+            for k, pk in enumerate(op["script"]):
+                if k < off and pk["t"] == "STAT" and pk.get("stat"):
+                    allowed.add(pk["stat"]["p"])
+            extra = [e["p"] for e in impl.get("after", []) if e["p"] not in allowed and not bytes.fromhex(e["p"]).split(b"/")[-1].startswith(b".tmp.")]
+            if extra:
+                ok = False
+                notes.append("entries at/after the first offender were applied: %s" % extra[:4])
+        else:
+            complete = any(pk["t"] == "STAT" and not pk.get("stat") for pk in op["script"])
+            if op["answer"] and complete and impl["recv"] != "ok":
+                ok = False
+                notes.append("valid stream rejected: %s" % impl.get("recverr"))
+        if impl.get("blocked"):
+            notes.append("(blocked until teardown)")
+        agree = ok
+        return Verdict(agree, ok, "; ".join(notes))
+
+    def nontrivial(self, op, impl, model):
+        return len(op["script"]) >= 2
+
+    def features(self, op, impl, model):
+        return ["offender=%s" % (model.get("offender") is not None), "recv=%s" % impl.get("recv"), "dst=" + ("dirty" if op["dst"] else "fresh"),
+                "why=%s" % str(model.get("why"))[:30]]
+
+    def shrink(self, op):
+        out = []
+        sc = op["script"]
+        for i in range(len(sc)):
+            o = dict(op)
+            o["script"] = sc[:i] + sc[i + 1:]
+            out.append(o)
+        for i in range(len(op["dst"])):
+            o = dict(op)
+            o["dst"] = op["dst"][:i] + op["dst"][i + 1:]
+            out.append(o)
+        return out
+
+    matchers = {
+        "F8": lambda op, impl, model: any("outside" in c or "sent" in c or "sib" in c for c in impl.get("outside_changed", [])) and
+        any(pk["t"] == "STAT" and pk.get("stat") and pk["stat"].get("x") and pk["stat"]["mode"] & (1 << 27) for pk in op["script"]),
+    }
